@@ -263,7 +263,7 @@ def run(ctx):
         if ctx.thorough:
             runs = [("three", dict(MaxItems=3, MaxDepth=2, KeyPool=keys, ValPool={"w", "one", "fzero", "l01", "lmap", "zblank3", "holo", "null"})),
                     ("two", dict(MaxItems=2, MaxDepth=1, KeyPool=keys, ValPool={"w", "two", "int", "zero", "one", "fzero", "fone", "t", "f", "l2", "l01", "lmap", "lq", "z1",
-                                                                                  "ztrail", "zblank3", "holo", "null", "flow", "nl", "nlsp"})),
+                                                                                  "ztrail", "zblank3", "holo", "null", "flow"})),     # (multi-line strings: the Markdown leaf scan reads one line)
                     ("four", dict(MaxItems=4, MaxDepth=3, KeyPool={"STATUS", "NAME", "GRP"}, ValPool={"w"}))]
         else:
             runs = [("two", dict(MaxItems=2, MaxDepth=1, KeyPool=keys, ValPool={"w", "two", "int", "zero", "one", "fone", "t", "l2", "l01", "lmap", "lq", "z1", "zblank3", "holo", "null", "flow"})),
